@@ -359,6 +359,8 @@ def _check_stat(run, repo, world, folder):
                where(mod, fn))
     # ---- hasseb ------------------------------------------------------------
     owner, fn = _fn(world, HID + ".hasseb", "_send_raw")
+    from .. import astq
+    fn = astq.propagate(fn)       # `status = report[0]` reads as the report
     Q = HID + ".hasseb._send_raw"
     chains = _chain(fn, _mentions("self._response"))
     table = {}
@@ -452,8 +454,28 @@ def _check_stat(run, repo, world, folder):
         owner, fn = _fn(world, cq, "send")
         mod = repo.mod(SER)
         Q = cq + ".send"
-        ok = any(unparse(c) == "msg.response(frame.BackwardFrame(raw_rsp))"
-                 for c in call_sites(fn))
+        # <command>.response(BackwardFrame(x)) where x was taken from the
+        # gateway's answer queue
+        cmdp = fn.args.args[1].arg
+        ok = False
+        for c in call_sites(fn):
+            if not (isinstance(c.func, ast.Attribute) and c.func.attr ==
+                    "response" and unparse(c.func.value) == cmdp and
+                    len(c.args) == 1 and isinstance(c.args[0], ast.Call)
+                    and len(c.args[0].args) == 1 and isinstance(
+                        c.args[0].args[0], ast.Name)):
+                continue
+            k_ = world.resolve_class(SER, c.args[0].func)
+            if k_ is None or k_.qname != "dali.frame.BackwardFrame":
+                continue
+            x = c.args[0].args[0].id
+            srcs = [unparse(n.value, 400) for n in ast.walk(fn) if isinstance(
+                n, ast.Assign) and any(isinstance(t_, ast.Name) and
+                                       t_.id == x for t_ in n.targets)]
+            if srcs and all("_queue_rx_raw_dali.get()" in t_ or
+                            "wait_dali_raw_response()" in t_ or t_ == "None"
+                            for t_ in srcs):
+                ok = True
         hs = [unparse(h.type) for n in ast.walk(fn) if isinstance(n, ast.Try)
               for h in n.handlers if h.type is not None]
         run.ob("R-STAT", Q + "#answer", ok and
@@ -529,23 +551,61 @@ def _check_own_answer(run, repo, world, folder):
         raise AnalysisError("tridonic._resptmpl format not found")
     off = struct.calcsize(">BB4sH")
     hid = _spec("hid.json")
-    seq_asg = [unparse(n.value) for n in ast.walk(fn2) if isinstance(
-        n, ast.Assign) and unparse(n.targets[0]) == "seq"]
+    from .. import astq, pred
+    from ..pathcond import path_conds
+    dparam = fn2.args.args[1].arg
+    defs2 = astq._defs(fn2)
+    keys = set()
+    for n in ast.walk(fn2):
+        if isinstance(n, ast.Subscript) and unparse(
+                n.value) == "self._outstanding":
+            keys.add(astq.canon(fn2, n.slice, defs=defs2))
+        elif isinstance(n, ast.Call) and isinstance(
+                n.func, ast.Attribute) and unparse(
+                    n.func.value) == "self._outstanding" and n.func.attr in (
+                        "get", "pop") and n.args:
+            keys.add(astq.canon(fn2, n.args[0], defs=defs2))
+        elif isinstance(n, ast.Compare) and len(n.ops) == 1 and isinstance(
+                n.ops[0], (ast.In, ast.NotIn)) and unparse(
+                    n.comparators[0]) == "self._outstanding":
+            keys.add(astq.canon(fn2, n.left, defs=defs2))
     run.ob("R-OWN-ANSWER", HID + ".tridonic._handle_read#route-by-seq",
            fmt == hid["tridonic"]["response_format"] and off ==
-           hid["tridonic"]["seq_offset"] and seq_asg == ["data[%d]" % off]
-           and any(unparse(n.test) == "seq in self._outstanding"
-                   for n in ast.walk(fn2) if isinstance(n, ast.If)),
+           hid["tridonic"]["seq_offset"] and keys == {
+               "%s[%d]" % (dparam, off)},
            "reports must be routed by the sequence byte (offset %d of %s); "
-           "found seq = %s" % (off, fmt, seq_asg), where(mod, fn2))
-    only_resp = False
-    for n in ast.walk(fn2):
-        if isinstance(n, ast.If) and unparse(n.test) == \
-                "data[0] == self._MODE_RESPONSE":
-            only_resp = any("self._outstanding" in unparse(s) for s in n.body)
+           "the in-flight table is looked up with %s" % (
+               off, fmt, sorted(keys)), where(mod, fn2))
+    # ... and only reports of type RESPONSE reach the in-flight table
+    cfg2 = CFG(fn2, may_raise=suspension_may_raise,
+               name=HID + ".tridonic._handle_read")
+    P2 = pred.Parser(lambda e: None)
+
+    def tree2(t):
+        for x in ast.walk(t):
+            if isinstance(x, ast.NamedExpr):
+                return None
+        try:
+            return P2.tree(astq.resolve(fn2, t, defs=defs2))
+        except pred.Unrecognised:
+            return None
+    a_, b_ = sorted(["%s[0]" % dparam, "self._MODE_RESPONSE"])
+    want2 = frozenset([frozenset([("p", "%s == %s" % (a_, b_), True)])])
+    only_resp = True
+    nsite = 0
+    for n in cfg2.reachable:
+        if n.ast is None or n.kind not in ("stmt", "test"):
+            continue
+        if "self._outstanding" not in unparse(n.ast, 400):
+            continue
+        nsite += 1
+        d = path_conds(cfg2, n, tree2, what="R-OWN-ANSWER")
+        d = frozenset(frozenset(a for a in c if "[0]" in a[1]) for c in d)
+        if not pred.implies(d, want2)[0]:
+            only_resp = False
     run.ob("R-OWN-ANSWER", HID + ".tridonic._handle_read#responses-only",
-           only_resp, "only MODE_RESPONSE reports may be routed to waiting "
-           "senders", where(mod, fn2))
+           only_resp and nsite >= 1, "only MODE_RESPONSE reports may be "
+           "routed to waiting senders", where(mod, fn2))
     # LUBA / SCI: flush precedes the write, answer awaited after, same lock
     mod = repo.mod(SER)
     for cq in (SER + ".DriverLubaRs232", SER + ".DriverSCIRS232"):
@@ -611,52 +671,63 @@ def _check_flush(run, repo, world):
             if name not in ("reset_dali_response",):
                 continue
             Q = "%s.%s" % (c.qname, name)
-            # blocks: qlen = self.<Q>.qsize(); if qlen: ... get_nowait()
-            qvar = {}
-            for s in fn.body:
-                if isinstance(s, ast.Assign) and isinstance(
-                        s.value, ast.Call) and unparse(
-                            s.value.func).endswith(".qsize"):
-                    qvar[unparse(s.targets[0])] = unparse(
-                        s.value.func)[:-len(".qsize")]
-                    cur_q = qvar[unparse(s.targets[0])]
-                if isinstance(s, (ast.If, ast.While)) and unparse(
-                        s.test) in qvar:
-                    tested = cur_q
-                    n_blocks += 1
-                    drained = {unparse(x.func)[:-len(".get_nowait")]
-                               for x in ast.walk(s) if isinstance(
-                                   x, ast.Call) and unparse(
-                                       x.func).endswith(".get_nowait")}
-                    loop = isinstance(s, ast.While) or any(
-                        isinstance(x, (ast.While, ast.For))
-                        for x in ast.walk(s))
-                    key = "%s#%s" % (Q, tested.replace("self.", ""))
-                    run.ob("R-FLUSH", key + "[queue]", drained == {tested},
-                           "the flush tests %s but drains %s: stale items "
-                           "stay queued and the next send consumes the "
-                           "previous command's confirmation" % (
-                               tested, sorted(drained)), where(mod, s),
-                           sample={"rule": "R-FLUSH", "tested": tested,
-                                   "drained": sorted(drained)})
-                    run.ob("R-FLUSH", key + "[loop]", loop,
-                           "only one stale item is discarded although %s "
-                           "may hold several" % tested, where(mod, s))
-                if isinstance(s, ast.While):
-                    t = unparse(s.test)
-                    if t.startswith("not ") and t.endswith(".empty()"):
-                        tested = t[4:-len(".empty()")]
-                        n_blocks += 1
-                        drained = {unparse(x.func)[:-len(".get_nowait")]
-                                   for x in ast.walk(s) if isinstance(
-                                       x, ast.Call) and unparse(
-                                           x.func).endswith(".get_nowait")}
-                        key = "%s#%s" % (Q, tested.replace("self.", ""))
-                        run.ob("R-FLUSH", key + "[queue]",
-                               drained == {tested},
-                               "the flush tests %s but drains %s" % (
-                                   tested, sorted(drained)), where(mod, s))
-                        run.ob("R-FLUSH", key + "[loop]", True)
+            # every get_nowait() of the flush: inside a loop, and the
+            # nearest enclosing emptiness test is about the same queue
+            parent = {}
+            for x in ast.walk(fn):
+                for ch in ast.iter_child_nodes(x):
+                    parent[id(ch)] = x
+            sized = {}       # local <- <queue>.qsize()
+            for x in ast.walk(fn):
+                if isinstance(x, ast.Assign) and isinstance(
+                        x.value, ast.Call) and unparse(
+                            x.value.func).endswith(".qsize") and isinstance(
+                                x.targets[0], ast.Name):
+                    sized[x.targets[0].id] = unparse(
+                        x.value.func)[:-len(".qsize")]
+
+            def queue_of_test(t):
+                """The queue an emptiness / size test is about."""
+                for y in ast.walk(t):
+                    if isinstance(y, ast.Call) and isinstance(
+                            y.func, ast.Attribute) and y.func.attr in (
+                                "empty", "qsize"):
+                        return unparse(y.func.value)
+                    if isinstance(y, ast.Name) and y.id in sized:
+                        return sized[y.id]
+                return None
+            for x in ast.walk(fn):
+                if not (isinstance(x, ast.Call) and isinstance(
+                        x.func, ast.Attribute) and
+                        x.func.attr == "get_nowait"):
+                    continue
+                q = unparse(x.func.value)
+                n_blocks += 1
+                in_loop = False
+                tested = None
+                p_ = parent.get(id(x))
+                while p_ is not None and p_ is not fn:
+                    if isinstance(p_, (ast.While, ast.For, ast.AsyncFor)):
+                        in_loop = True
+                    t_ = None
+                    if isinstance(p_, (ast.While, ast.If)):
+                        t_ = p_.test
+                    elif isinstance(p_, ast.For):
+                        t_ = p_.iter
+                    if t_ is not None and tested is None:
+                        tested = queue_of_test(t_)
+                    p_ = parent.get(id(p_))
+                key = "%s#%s" % (Q, q.replace("self.", ""))
+                run.ob("R-FLUSH", key + "[queue]", tested in (None, q),
+                       "the flush tests %s but drains %s: stale items "
+                       "stay queued and the next send consumes the "
+                       "previous command's confirmation" % (tested, q),
+                       where(mod, x),
+                       sample={"rule": "R-FLUSH", "tested": tested,
+                               "drained": q})
+                run.ob("R-FLUSH", key + "[loop]", in_loop,
+                       "only one stale item is discarded although %s "
+                       "may hold several" % q, where(mod, x))
     run.floor("stale-flush blocks", n_blocks, 3)
     # every flush must cover the queues the send path later reads
     for cq, queues in ((SER + ".DriverLubaRs232.LubaProtocol",
